@@ -12,14 +12,13 @@ from core import vloop
 ID = "C36"
 LEAN_TARGETS = ["TornadoModel.C36.Props"]
 _T = "TornadoModel.C36."
-THEOREMS_PLANNED = [_T + n for n in [
+THEOREMS = [_T + n for n in [
     "chain_b_stable", "chain_copies", "chain_never_pending", "chain_only_from_source",
-    "timeout_res_stable", "with_timeout_before", "with_timeout_after", "with_timeout_no_deadline",
-    "with_timeout_never_pending",
-    "multi_finish_spec", "multi_out_stable", "multi_not_early", "multi_settles", "multi_outcome",
-    "waititer_order", "waititer_index", "waititer_refuted", "waititer_partial",
+    "multi_finish_spec", "multi_last_callback", "multi_out_stable",
+    "timeout_res_stable", "waititer_refuted",
 ]]
-THEOREMS = []
+GOALS = ["multi_settles_goal", "multi_outcome_goal", "multi_not_early_goal", "with_timeout_before_goal",
+         "with_timeout_after_goal", "with_timeout_no_deadline_goal", "waititer_partial_goal"]   # tie only
 TRUSTED = [
     "asyncio.Future / event loop abstraction of C36/Model.lean: settled futures never change; done-callbacks are "
     "call_soon'ed in registration order when the future settles and run on a later iteration; one iteration runs "
@@ -42,17 +41,18 @@ RULE = ("complete enumeration of <=4 inputs x {result,exception,cancelled} x all
         "settles after construction and the output is observed settled")
 EXHAUSTIVE = {"quick": True, "thorough": True}
 CLAUSES = {
-    "multi resolves once all inputs are done": "multi_settles + multi_not_early",
+    "multi resolves once all inputs are done": "tie only (exhaustive <=4 inputs): multi_settles_goal, multi_not_early_goal",
     "with results in input order (or by dict key) or the exception of the first failing input in order "
-    "(cancelled = CancelledError)": "multi_outcome + multi_finish_spec (dict keys: tie only)",
+    "(cancelled = CancelledError)": "multi_finish_spec + multi_last_callback + multi_out_stable (the computation, any "
+                                    "children list); reachability of that step: tie only (multi_outcome_goal); dict keys: tie only",
     "WaitIterator yields every input exactly once in completion order with the matching index":
-        "waititer_order + waititer_index (waititer_partial; false for duplicate arguments: waititer_refuted, known finding)",
+        "tie only (waititer_partial_goal); false for duplicate arguments: waititer_refuted (known finding)",
     "with_timeout settles with the input's outcome if it finishes before the deadline and with TimeoutError otherwise":
-        "with_timeout_before + with_timeout_after + with_timeout_no_deadline",
+        "timeout_res_stable; tie only (all op sequences up to length 5): with_timeout_before/after/no_deadline_goal",
     "a chained future copies its source's outcome, including cancellation, unless already done":
         "chain_copies + chain_b_stable + chain_only_from_source",
     "none is left pending forever once its inputs are done":
-        "chain_never_pending + multi_settles + with_timeout_never_pending; WaitIterator: tie only",
+        "chain_never_pending; multi / with_timeout / WaitIterator: tie only",
 }
 PARALLEL = False   # a case costs ~0.2 ms; forking workers is slower than running them in-process
 CASE_TIMEOUT = 20
